@@ -836,3 +836,50 @@ def expand_dispatch(tree: ast.Module) -> int:
             tables = _dispatch_tables(tree, fn)
             total += _expand_dispatch_in_list(fn.body, tables, {})
     return total
+
+
+# --------------------------------------------------------------------------
+# copies of never-rebound parameters:  x = param  ->  use param
+# --------------------------------------------------------------------------
+
+def propagate_param_copies(tree: ast.Module) -> int:
+    total = 0
+    for fn in ast.walk(tree):
+        if not isinstance(fn, (ast.FunctionDef, ast.AsyncFunctionDef)):
+            continue
+        params = {a.arg for a in fn.args.posonlyargs + fn.args.args + fn.args.kwonlyargs}
+        for _ in range(8):
+            stores: Dict[str, int] = {}
+            for x in ast.walk(fn):
+                if isinstance(x, ast.Name) and not isinstance(x.ctx, ast.Load):
+                    stores[x.id] = stores.get(x.id, 0) + 1
+                elif isinstance(x, (ast.Global, ast.Nonlocal)):
+                    for nm in x.names:
+                        stores[nm] = stores.get(nm, 0) + 2
+            found = None
+            for parent_ in ast.walk(fn):
+                for fld in ("body", "orelse", "finalbody"):
+                    lst = getattr(parent_, fld, None)
+                    if not (isinstance(lst, list) and lst and isinstance(lst[0], ast.stmt)):
+                        continue
+                    for st in lst:
+                        if (isinstance(st, ast.Assign) and len(st.targets) == 1 and isinstance(st.targets[0], ast.Name) and isinstance(st.value, ast.Name)
+                                and st.value.id in params and stores.get(st.value.id, 0) == 0 and stores.get(st.targets[0].id, 0) == 1 and st.targets[0].id not in params):
+                            found = (lst, st)
+                            break
+                    if found:
+                        break
+                if found:
+                    break
+            if not found:
+                break
+            lst, st = found
+            a, p = st.targets[0].id, st.value.id
+            lst.remove(st)
+            if not lst:
+                lst.append(ast.Pass())
+            for x in ast.walk(fn):
+                if isinstance(x, ast.Name) and x.id == a:
+                    x.id = p
+            total += 1
+    return total
